@@ -99,6 +99,16 @@ CHECKS = {
              'are classified by independent lexical definitions into must-accept / must-reject / unspecified and compared '
              'with STRICT acceptance, the re-encoded text, TOLERANT verbatim preservation and utils.check_*.',
         note='trusted: python calendar module, reference regular expressions; unspecified band (years<1000, +14MM/-12MM, .5/5., +SI) never reported'),
+    'C15': dict(
+        engine=E1, design_ref='DESIGN.md section 7 C15',
+        technique='exhaustive enumeration of mutation families of one seed message per version and of all short strings over a '
+                  '13-symbol alphabet through parse_message / get_message_type under both levels; oracle: exception class membership',
+        text='Per version: truncation at every byte, deletion and duplication of every delimiter occurrence, every MSH-2 length '
+             '0-6 x header field count 2-13, 150 MSH-9 x MSH-12 combinations, every segment id replaced by 9 alternatives, blank '
+             'lines at every position, CRLF / LF, plus all strings up to length 4 (thorough 5) over {M S H | ^ ~ \\ & CR 2 . 5 A} '
+             'after 3 prefixes (~99,000 distinct inputs x 2 levels). Every outcome must be a value, an HL7apyException or (STRICT) a '
+             'ValueError; every returned message must encode and must return a validation report.',
+        note='trusted: traceback inspection for the finding key only'),
     'C16': dict(
         engine=E3, design_ref='DESIGN.md section 7 C16',
         technique='exhaustive enumeration of environment answers (every prefix length x every composition into <=3/4 arrivals x '
